@@ -321,6 +321,7 @@ type procCfg struct {
 	IOErrPM     int
 	IOErrFrom   int // from this I/O operation on, creating and writing fail with ENOSPC
 	CondAny     bool
+	UnlockY     bool `json:"unlock_yields,omitempty"`
 	ReadDirPerm bool
 	SplitWrites bool
 	MapFixed    bool
@@ -346,7 +347,7 @@ func (w *world) newSim(name string, pc procCfg, stepHook func(step int, kind, de
 	cfg := simrt.Config{
 		Sched: ts.Get(name + ".sched"), Misc: ts.Get(name + ".misc"), Fault: ts.Get(name + ".fault"),
 		Strategy: pc.Strategy, StickyNum: pc.Sticky, PCTDepth: pc.PCTDepth, PCTEst: 600, NumCPU: pc.NumCPU,
-		CrashAt: pc.CrashAt, TornFrac: pc.TornFrac, IOErrAt: pc.IOErrAt, IOErrPerMille: pc.IOErrPM, IOErrFrom: pc.IOErrFrom, CondSignalAny: pc.CondAny,
+		CrashAt: pc.CrashAt, TornFrac: pc.TornFrac, IOErrAt: pc.IOErrAt, IOErrPerMille: pc.IOErrPM, IOErrFrom: pc.IOErrFrom, CondSignalAny: pc.CondAny, UnlockYields: pc.UnlockY,
 		ReadDirPerm: pc.ReadDirPerm, SplitWrites: pc.SplitWrites, MapOrderFixed: pc.MapFixed,
 		TempDir: filepath.Join(w.home, "tmp"), MaxSteps: pc.MaxSteps,
 	}
